@@ -1,4 +1,5 @@
 import Capella.Lemmas.Query
+import Capella.Lemmas.QueryList
 
 /-!
 # C10 — queries return exactly what a brute-force scan of the model would
@@ -7,7 +8,7 @@ Property theorems only; helper lemmas live in `Capella/Lemmas/Query.lean`, the m
 `Capella/Model/Query.lean`.
 -/
 namespace Capella.Props.C10
-open Capella.Query
+open Capella.Query Capella.QList
 
 /-- Type search is sound and complete: with a type index that is consistent with the trees, `search`
 (any set of types, optional `below` anchor) returns exactly the nodes a full scan finds. -/
@@ -185,6 +186,200 @@ theorem map_spec {α β : Type} (f : α → List β) (key : β → Str) (l : Lis
     simpa [List.mem_flatMap] using this
   · intro x hx y hy
     exact key_mem_dedupBy key _ [] y (List.mem_flatMap.mpr ⟨x, hx, hy⟩) (by simp)
+
+
+/-! ## `ElementList` and its filter objects as coded (`Model/QueryList.lean`) -/
+
+/-- Every pair of filter names `by_<a>` / `exclude_<a>s` of a list denotes the same attribute path
+with opposite polarity (and only `by_name` / `by_uuid` promise a single result by default). -/
+theorem filter_names_complementary (a : Str) :
+    parseName false ("by_".toList ++ a) =
+      some { path := splitDots a, positive := true, single := (a = "name".toList || a = "uuid".toList) } ∧
+    parseName false ("exclude_".toList ++ a ++ "s".toList) =
+      some { path := splitDots a, positive := false } :=
+  ⟨parseName_by a, parseName_exclude a⟩
+
+/-- … and on a mixed list `by_type` / `exclude_types` are the two polarities of the lowercase
+filter on the class name. -/
+theorem filter_names_mixed_type :
+    parseName true "by_type".toList =
+      some { path := ["__class__".toList, "__name__".toList], positive := true, lowercase := true } ∧
+    parseName true "exclude_types".toList =
+      some { path := ["__class__".toList, "__name__".toList], positive := false, lowercase := true } := by
+  constructor <;> rfl
+
+/-- Partition, for the filter objects as coded, in any object world: for every attribute path
+(dotted or not, lowercase variant or not), every value tuple and every list, `by` and `exclude`
+either raise the same exception or return `l.filter p` and `l.filter (¬ p)` for one predicate `p` —
+complementary, disjoint, order-preserving; elements lacking the attribute included. -/
+theorem call_partition (w : World) (path : List Str) (s1 s2 lc : Bool) (vals : List Atom) (l : List Nat) :
+    (∃ e, call w ⟨path, true, s1, lc⟩ vals (some false) l = .error e ∧
+          call w ⟨path, false, s2, lc⟩ vals (some false) l = .error e) ∨
+    (∃ p : Nat → Bool, call w ⟨path, true, s1, lc⟩ vals (some false) l = .ok (.list (l.filter p)) ∧
+          call w ⟨path, false, s2, lc⟩ vals (some false) l = .ok (.list (l.filter (fun x => !p x)))) :=
+  call_partition_core w path s1 s2 lc vals l
+
+/-- … hence the two results interleave back to the list. -/
+theorem call_partition_merge (w : World) (path : List Str) (s1 s2 lc : Bool) (vals : List Atom) (l B E : List Nat)
+    (hb : call w ⟨path, true, s1, lc⟩ vals (some false) l = .ok (.list B))
+    (he : call w ⟨path, false, s2, lc⟩ vals (some false) l = .ok (.list E)) :
+    ∃ mask, merge mask B E = l ∧ ∀ x, x ∈ B → x ∉ E := by
+  rcases call_partition w path s1 s2 lc vals l with ⟨e, h1, _⟩ | ⟨p, h1, h2⟩
+  · rw [h1] at hb; cases hb
+  · rw [h1] at hb; rw [h2] at he
+    cases hb; cases he
+    refine ⟨l.map p, merge_filter p l, ?_⟩
+    intro x hx hx'
+    have a := (List.mem_filter.mp hx).2
+    have b := (List.mem_filter.mp hx').2
+    simp [a] at b
+
+/-- A call that promises a single result (explicit `single=True`, or the default of `by_name` /
+`by_uuid`) returns `x` exactly when `x` is the only match, and raises `KeyError` on zero or several. -/
+theorem call_single (w : World) (f : Filter) (vals vs : List Atom) (l ms : List Nat) (single : Option Bool)
+    (hs : single.getD f.single = true)
+    (hv : valuesOf f vals = .ok vs) (hm : matchesE w f vs l = .ok ms) :
+    (∀ x, call w f vals single l = .ok (.one x) ↔ ms = [x]) ∧
+    (ms.length ≠ 1 → call w f vals single l = .error .keyError) := by
+  unfold call
+  rw [hv]; simp only []; rw [hm]; simp only [hs, if_true]
+  constructor
+  · intro x
+    match ms with
+    | [] => simp
+    | [y] => simp
+    | _ :: _ :: _ => simp
+  · intro hl
+    match ms, hl with
+    | [], _ => rfl
+    | [y], hl => simp at hl
+    | _ :: _ :: _, _ => rfl
+
+/-- The lowercase filter (`by_type`) selects exactly the elements whose class name equals the value
+up to case. -/
+theorem by_type_spec (w : World) (path : List Str) (x : Nat) (c v : Str) (pos : Bool)
+    (hc : pathOf w x path = some (.atom (.s c))) :
+    ismatchE w ⟨path, pos, false, true⟩ x [.s (lower v)] = .ok (pos == decide (lower c = lower v)) := by
+  simp [ismatchE, extractKey, hc, ismatch, eq_comm]
+
+/-- A nested filter `lst.by_a.b` evaluates `b` on what `a` yields; a missing link anywhere in the
+chain is a missing attribute. -/
+theorem nested_path (w : World) (x : Nat) (p : List Str) (b : Str) :
+    pathOf w x (p ++ [b]) = (pathOf w x p).bind (fun v => getPath w v [b]) :=
+  getPath_append w p [b] (.obj x)
+
+/-- `getattr(lst, "by_a.b")` walks the same path as `lst.by_a.b`. -/
+theorem nested_name (a b : Str) :
+    (parseName false ("by_".toList ++ (a ++ '.' :: b))).map (·.path) = some (splitDots a ++ splitDots b) := by
+  rw [parseName_by, Option.map_some, splitDots_dot]
+
+/-- Iterating a filter yields each key occurring in the list exactly once (and raises unless every
+element has an atomic key) … -/
+theorem iter_spec (w : World) (f : Filter) (l : List Nat) (ks : List Atom) (h : iterKeys w f l [] = .ok ks) :
+    ks.Nodup ∧ (∀ a, a ∈ ks ↔ ∃ x ∈ l, extractKey w f x = .ok (.atom a)) := by
+  obtain ⟨h1, _, h3, _⟩ := iterKeys_spec w f l [] ks h
+  exact ⟨h1, fun a => by rw [h3 a]; simp⟩
+
+/-- … and, as its docstring promises, every yielded value gives a non-empty list when filtered for. -/
+theorem iter_values_match (w : World) (path : List Str) (s : Bool) (l : List Nat) (ks : List Atom)
+    (h : iterKeys w ⟨path, true, s, false⟩ l [] = .ok ks) (a : Atom) (ha : a ∈ ks) :
+    ∃ ms, call w ⟨path, true, s, false⟩ [a] (some false) l = .ok (.list ms) ∧ ms ≠ [] := by
+  obtain ⟨_, _, h3, h4⟩ := iterKeys_spec w _ l [] ks h
+  obtain ⟨_, x, hx, hk⟩ := (h3 a).mp ha
+  obtain ⟨ms, hms⟩ := matchesE_total w ⟨path, true, s, false⟩ [a] l
+    (fun y hy => by obtain ⟨b, hb⟩ := h4 y hy; exact ⟨_, hb⟩)
+  refine ⟨ms, ?_, ?_⟩
+  · simp [call, valuesOf, hms]
+  · rw [matchesE_ok w _ [a] l ms hms]
+    intro he
+    have : x ∈ l.filter (matchFlag w ⟨path, true, s, false⟩ [a]) := by
+      refine List.mem_filter.mpr ⟨hx, ?_⟩
+      simp [matchFlag, ismatchE, hk, ismatch]
+    rw [he] at this
+    cases this
+
+/-- `v in lst.by_a` is "filtering for `v` gives a non-empty list". -/
+theorem filter_contains_spec (w : World) (f : Filter) (v : Atom) (vs : List Atom) (l ms : List Nat)
+    (hv : valuesOf f [v] = .ok vs) (hm : matchesE w f vs l = .ok ms) :
+    containsE w f v l = .ok (!ms.isEmpty) :=
+  containsE_of_matches w f v vs hv l ms hm
+
+/-- `lst.filter("a.b")` keeps, in order, the elements whose attribute value is truthy; it raises
+`AttributeError` exactly when some element lacks the attribute. -/
+theorem filter_pred_spec (w : World) (path : List Str) (l : List Nat) :
+    ((∀ x ∈ l, (pathOf w x path).isSome = true) → filterPath w path l = .ok (l.filter (truthyAt w path))) ∧
+    ((∃ x ∈ l, pathOf w x path = none) → filterPath w path l = .error .attributeError) := by
+  refine ⟨?_, filterPath_error w path l⟩
+  intro hall
+  obtain ⟨r, hr⟩ := filterPath_total w path l hall
+  rw [hr, (filterPath_ok w path l r hr).2]
+
+/-- `map`: the loop with its set of seen uuids returns the first occurrence of every uuid among the
+flattened images, in order (elements without the attribute contribute nothing); any image that is
+not a model element makes it raise `TypeError`. -/
+theorem map_loop_spec (w : World) (uuid : Nat → Str) (a : Str) (l : List Nat) :
+    (∀ img : Nat → List Nat, (∀ x ∈ l, imagesOf w a x = .ok (img x)) →
+      map1 w uuid a l = .ok (firstOcc uuid (l.flatMap img))) ∧
+    ((∃ x ∈ l, imagesOf w a x = .error .typeError) → map1 w uuid a l = .error .typeError) := by
+  refine ⟨fun img h => map1_spec w uuid a img l h, fun h => ?_⟩
+  unfold map1
+  rw [mapStep_error w uuid a l {} h]
+
+/-- `map("a.b")` is `map("b")` of `map("a")`. -/
+theorem map_dotted (w : World) (uuid : Nat → Str) (p q : List Str) (l : List Nat) :
+    mapPath w uuid (p ++ q) l =
+      (match mapPath w uuid p l with
+       | .ok l' => mapPath w uuid q l'
+       | .error e => .error e) :=
+  mapPath_append w uuid p q l
+
+/-- `firstOcc` is what it says: a sub-list without repeated uuids that still has every uuid. -/
+theorem firstOcc_spec (uuid : Nat → Str) (l : List Nat) :
+    List.Sublist (firstOcc uuid l) l ∧ ((firstOcc uuid l).map uuid).Nodup ∧
+    ∀ x ∈ l, ∃ y ∈ firstOcc uuid l, uuid y = uuid x := by
+  have h : dedupBy uuid l [] = firstOcc uuid l := by rw [dedupBy_eq_firstOcc]; simp
+  rw [← h]
+  refine ⟨?_, (dedupBy_keys_nodup uuid l []).1, fun x hx => key_mem_dedupBy uuid l [] x hx (by simp)⟩
+  rw [h]
+  clear h
+  induction l with
+  | nil => exact List.Sublist.slnil
+  | cons x r ih => exact (List.Sublist.trans List.filter_sublist ih).cons₂ x
+
+/-- `a + b` concatenates (no de-duplication), `b.__radd__(a)` the other way round; the result is a
+plain list only if both have the same specific element class. -/
+theorem add_spec (ca cb : ListClass) (a b : List Nat) :
+    (add ca cb a b false).2 = a ++ b ∧ (add ca cb a b true).2 = b ++ a ∧
+    ((add ca cb a b false).1 = .mixed ∨
+      ((add ca cb a b false).1 = .plain (elemclassOf ca) ∧ elemclassOf ca = elemclassOf cb)) := by
+  refine ⟨rfl, rfl, ?_⟩
+  unfold add
+  simp only []
+  split
+  · rename_i h; exact Or.inr ⟨rfl, h.1⟩
+  · exact Or.inl rfl
+
+/-- `lst["key"]` returns the element whose map key equals `key` iff it is the only one;
+no such element is a `KeyError` (which `get` turns into the default), several a `ValueError`. -/
+theorem map_lookup_spec (w : World) (mk : List Str) (key : Atom) (l c : List Nat)
+    (hc : mapCandidates w mk key l = .ok c) :
+    (∀ x, mapFind w (some mk) key l = .ok x ↔ c = [x]) ∧
+    (c = [] → mapFind w (some mk) key l = .error .keyError ∧ ∀ mv, getDefault w (some mk) mv key l = .ok none) ∧
+    (2 ≤ c.length → mapFind w (some mk) key l = .error .valueError) ∧
+    c = l.filter (hasMapKey w mk key) := by
+  refine ⟨?_, ?_, ?_, mapCandidates_ok w mk key l c hc⟩
+  · intro x
+    simp only [mapFind, hc]
+    match c with
+    | [] => simp
+    | [y] => simp
+    | _ :: _ :: _ => simp
+  · intro h
+    subst h
+    simp [mapFind, hc, getDefault, getStrItem]
+  · intro h
+    match c, h with
+    | _ :: _ :: _, _ => simp [mapFind, hc]
 
 -- Non-vacuity
 def exNodes : List Node :=
